@@ -4,4 +4,4 @@ INVARIANT OnlyValidCells
 INVARIANT EveryValidCellOnce
 INVARIANT LinearOrder
 INVARIANT IndexesIdentifyCell
-CONSTANT Big = FALSE
+CONSTANT Big = TRUE
